@@ -74,6 +74,11 @@ TEXT = {
   technique='property-based testing: generated ext4 histories rich in Chmod/Chown/Chtimes/Symlink with a per-call frame check, FAT histories with Chtimes and attribute setters verified on raw directory entries after reopen, and workspace trees with modes/owners/mtimes/symlinks finalized to squashfs and Rock Ridge ISO; oracle = model of the set values at the format resolution + nothing else changes + kinds never confused',
   level_text='Generated histories/trees with a model oracle and a frame-condition invariant. Exploration.',
   level_note='Trusts the harness model of each format\'s resolution (FAT 2 s / date-only access time, squashfs 1 s) and the independent FAT entry parser.'),
+ 'C20': dict(
+  design_ref='DESIGN.md §4 C20',
+  technique='differential property-based testing against the reference implementation: generated host trees (sparse files, many entries, symlinks, owners, xattrs) populated by mke2fs -d / debugfs under generated feature sets, re-hashed with e2fsck -fyD and fragmented with debugfs, then read through ext4.Read and compared with what was put in (debugfs as arbiter); a hang or wrong data is a violation, refusal or a per-node error is not',
+  level_text='Generated images from an independent implementation; oracle = source tree / debugfs view, watchdog for termination. Exploration.',
+  level_note='Trusts e2fsprogs 1.47.0 as installed in the sandbox.'),
  'C15': dict(
   design_ref='DESIGN.md §4 C15',
   technique='fault enumeration: every GPT header field x boundary values x CRC recomputed/stale x primary/backup/both, 2-field size combinations, entry and MBR-slot corruptions, truncations, plus random images; oracle = no panic, watchdog, heap-allocation bound, returned tables only from CRC-valid data (independent parser); thorough adds a native go fuzz campaign',
